@@ -22,7 +22,7 @@ RULE = ('bases: orders 1..6 (8 thorough), open / non-open / periodic with every 
         'minimum sizes, random affine placement; points: every knot from both sides, both ends, span interiors, periodic '
         'points several periods away; d = 0..p+1.  distinct = distinct (basis, t, d, side); non-trivial = t in the domain '
         '(after wrapping) so that a non-zero row is demanded.')
-REQUIRED_TAGS = ['multi-point-call', 'multi-point:left', 'periodic', 'open', 'left@interior-knot-mult>=2', 'periodic-wrap-n<p', 'd>=p', 'left@start', 'at-end', 'outside-periodic']
+REQUIRED_TAGS = ['far-from-origin', 'far:left@interior-knot', 'multi-point-call', 'multi-point:left', 'periodic', 'open', 'left@interior-knot-mult>=2', 'periodic-wrap-n<p', 'd>=p', 'left@start', 'at-end', 'outside-periodic']
 TOLF = F(1, 10 ** 10)
 
 
@@ -43,6 +43,14 @@ def generate(rng, tier):
             b = gen.open_basis(rng, p, clamped=False)
         else:
             b = gen.open_basis(rng, p, wide=(tier == 'thorough'))
+        far = False
+        if bi % 9 == 5:
+            # parametrisations far from the origin (|knots| >= 2^21: half an ulp exceeds the knot
+            # tolerance there, so any "t - tol" style shortcut in the kernel loses its effect); all
+            # numbers stay dyadic with < 53 significant bits, so they are exact in double precision
+            off = float(2 ** rng.randint(21, 30)) * rng.choice([1, -1])
+            b = dict(b, knots=[t + off for t in b['knots']])
+            far = True
         pts = gen.eval_points(rng, b, per_span=1 if tier == 'quick' else 2)
         if b['periodic'] < 0:
             info = gen.basis_info(b)
@@ -53,7 +61,7 @@ def generate(rng, tier):
         for t in pts:
             for d in (ds if rng.random() < 0.5 else rng.sample(ds, min(3, len(ds)))):
                 for right in (True, False):
-                    specs.append({'basis': b, 't': t, 'd': d, 'right': right})
+                    specs.append({'basis': b, 't': t, 'd': d, 'right': right, **({'far': True} if far else {})})
         # several points in ONE call, in shuffled (unsorted) order: the rows must not depend on
         # each other (a kernel that carries state from one point to the next shows up only here)
         if len(pts) >= 2:
@@ -130,6 +138,10 @@ def tags(s, res):
     info = gen.basis_info(b)
     t, d, right = s['t'], s['d'], s['right']
     out = ['p=%d' % info['p'], 'periodic' if info['k'] >= 0 else 'open', 'd=%d' % min(d, 9)]
+    if s.get('far'):
+        out.append('far-from-origin')
+        if not right and info['start'] < t < info['end'] and any(x == t for x in b['knots']):
+            out.append('far:left@interior-knot')
     if d >= info['p']:
         out.append('d>=p')
     inside = info['start'] <= t <= info['end']
